@@ -1,0 +1,23 @@
+//go:build verif
+
+package state
+
+import (
+	"context"
+
+	"github.com/oasisprotocol/oasis-core/go/common/quantity"
+	staking "github.com/oasisprotocol/oasis-core/go/staking/api"
+)
+
+// VerifSlashPool exposes the package-private slashPool for the verification
+// harness. It exists only under the "verif" build tag.
+func VerifSlashPool(dst *quantity.Quantity, p *staking.SharePool, amount, total *quantity.Quantity) error {
+	return slashPool(dst, p, amount, total)
+}
+
+// VerifComputeCommission exposes the package-private computeCommission (with
+// an explicit rate, so no state access happens) for the verification harness.
+func VerifComputeCommission(rate, total *quantity.Quantity) (*quantity.Quantity, *quantity.Quantity, error) {
+	var s *MutableState
+	return s.computeCommission(context.Background(), rate, total)
+}
